@@ -951,6 +951,12 @@ func extractConnLegacy(repo, root string) error {
 	} else {
 		return fmt.Errorf("untranslated: writeCompressedMessages has no readArrayWith(&c.rbuf, …) call")
 	}
+	if t, after, err := translateApiVersions(connFns["ApiVersions"]); err != nil {
+		return fmt.Errorf("untranslated: %v", err)
+	} else {
+		fmt.Fprintf(&b, "-- conn.go ApiVersions (v0): the parse after waitResponse; error code checked after the parse: %v\n", after)
+		fmt.Fprintf(&b, "def apiVersionsParseGen : List Step := [%s]\ndef apiVersionsErrAfter : Bool := %v\n\n", t, after)
+	}
 	// Merge methods of the split requests: the first failed part fails the call
 	b.WriteString("/-- protocol/<api>/(*Response).Merge returns the error of the first failed part from inside its loop over the results -/\n")
 	b.WriteString("def strictMerges : List (String × Bool) := [")
